@@ -13,7 +13,7 @@ import (
 func init() {
 	register(&Property{
 		ID:        "C17",
-		Explain:   "Aliasing, decided by def-use tables and FOLD. (1) Every call site of the unsafe byte/string views (btsToString, strToBytes) is enumerated and each use of a view is classified: comparison / switch, argument of a reviewed non-retaining callee, or return inside the view helpers themselves; a new site or a new kind of use (stored, returned, handed to an unreviewed callee) is reported - this is how a copy replaced by a view is seen. (2) The library-owned selection paths are folded with the header value as symbolic transient memory: btsSelectProtocol / strSelectProtocol return string(token) - a copy, never the token; btsSelectExtensions selects with the SelectCopy flag; matchSelectedExtensions gives each matched option parameters from Parameters.Copy into a fresh buffer and names from the dialer's own list; negotiateExtensions hands transient options only to the user's callback. readLine copies partial chunks (C11 rule). Close reasons and message payloads are copies / fresh buffers (folds of C03, C04, C08). (3) Write-side APIs documented as non-mutating: writeFrame (all WriteMessage variants), Writer.WriteThrough, CipherWriter.Write, MaskFrame, MaskFrameWith, UnmaskFrame are folded: on the client side the cipher's argument is a pooled or fresh copy, never the caller's slice; on the server side nothing is ciphered; Writer.Write only copies out of p and keeps no reference to it. NOT decided: what user-supplied callbacks return (user-owned by contract). pooled-memory-escape: nothing returned by a function points into a pooled object that the function puts back (taint from the pooled object through calls, slices, fields, cells and append to the return values). The pool pairing rule is part of this check: only objects taken from a pool may be put into it, never a caller's buffer. The copying frame helpers must copy whatever the header says (unmasked input, zero key). negotiate-result-fresh: no result of Extension.Negotiate may alias the offered option (may-alias summary); Grow is folded with a caller's array behind the buffer: it must not extend the buffer in place. helper-readmessage: with m == nil the result of ReadMessage is a concrete list; every payload in it is memory of its own (ReadAll / Buffer.Bytes of a buffer local to the call, or an allocation made while that very frame was handled) and payloads are read only while the Reader reads the connection itself. caller-slices-not-written: a slice of values a struct keeps without copying (stored from a parameter, or an exported field) is replaced or re-sliced, never written element-wise. The frame rule of C01 runs here: ReadFrame reads the payload into a fresh allocation of Header.Length bytes (no view of a buffered source).",
+		Explain:   "Aliasing, decided by def-use tables and FOLD. (1) Every call site of the unsafe byte/string views (btsToString, strToBytes) is enumerated and each use of a view is classified: comparison / switch, argument of a reviewed non-retaining callee, or return inside the view helpers themselves; a new site or a new kind of use (stored, returned, handed to an unreviewed callee) is reported - this is how a copy replaced by a view is seen. (2) The library-owned selection paths are folded with the header value as symbolic transient memory: btsSelectProtocol / strSelectProtocol return string(token) - a copy, never the token; btsSelectExtensions selects with the SelectCopy flag; matchSelectedExtensions gives each matched option parameters from Parameters.Copy into a fresh buffer and names from the dialer's own list; negotiateExtensions hands transient options only to the user's callback. readLine copies partial chunks (C11 rule). Close reasons and message payloads are copies / fresh buffers (folds of C03, C04, C08). (3) Write-side APIs documented as non-mutating: writeFrame (all WriteMessage variants), Writer.WriteThrough, CipherWriter.Write, MaskFrame, MaskFrameWith, UnmaskFrame are folded: on the client side the cipher's argument is a pooled or fresh copy, never the caller's slice; on the server side nothing is ciphered; Writer.Write only copies out of p and keeps no reference to it. NOT decided: what user-supplied callbacks return (user-owned by contract). pooled-memory-escape: nothing returned by a function points into a pooled object that the function puts back (taint from the pooled object through calls, slices, fields, cells and append to the return values). The pool pairing rule is part of this check: only objects taken from a pool may be put into it, never a caller's buffer. The copying frame helpers must copy whatever the header says (unmasked input, zero key). negotiate-result-fresh: no result of Extension.Negotiate may alias the offered option (may-alias summary); Grow is folded with a caller's array behind the buffer: it must not extend the buffer in place. helper-readmessage: with m == nil the result of ReadMessage is a concrete list; every payload in it is memory of its own (ReadAll / Buffer.Bytes of a buffer local to the call, or an allocation made while that very frame was handled) and payloads are read only while the Reader reads the connection itself. caller-slices-not-written: a slice of values a struct keeps without copying (stored from a parameter, or an exported field) is replaced or re-sliced, never written element-wise. The frame rule of C01 runs here: ReadFrame reads the payload into a fresh allocation of Header.Length bytes (no view of a buffered source). inplace-mask-call-sites: MaskFrameInPlace / MaskFrameInPlaceWith / UnmaskFrameInPlace are applied only at the six reviewed sites where the payload is a copy or a fresh buffer of the library's own; no-global-bytes-returned (with the other rules about package-level state) runs here: no exported function returns bytes that live in a package-level variable.",
 		Technique: "static analysis: def-use classification of unsafe-view sites plus path-sensitive abstract interpretation with symbolic memory regions",
 		Trusted:   []string{"go/ssa + go/types", "the checker's abstract evaluator", "httphead.ScanTokens/ScanOptions call back with sub-slices of their input; OptionSelector honours SelectCopy; Parameters.Copy copies (dependency source, not analysed here)"},
 		Run:       runC17,
